@@ -1341,6 +1341,15 @@ fn translate_block(
             }
         }
 
+        // Every native instruction is represented by at least one IL
+        // instruction carrying its address (direct branches emit none).
+        if let Some(entry) = instruction_graph.entry() {
+            let block = instruction_graph.block_mut(entry)?;
+            if block.is_empty() {
+                block.nop();
+            }
+        }
+
         instruction_graph.set_address(Some(instruction.address()));
         block_graphs.push((instruction.address(), instruction_graph));
 
